@@ -2,6 +2,7 @@
 import DriverLib.Json
 import Wheatley.Model.Gen
 import Wheatley.Lemmas.RoundTripG
+import Wheatley.Lemmas.Change
 open Lean Wheatley
 
 namespace Drv
@@ -71,7 +72,9 @@ def handlePermute (j : Json) : R Json := do
   let stage ← natF j "stage"
   let row ← asNats (← fld j "row")
   let places ← asNats (← fld j "places")
-  return jObj [("row", jRow (permute stage row places))]
+  return jObj [("row", jRow (permute stage row places)),
+    ("spec", jRow (Spec.apply stage row places)),
+    ("consistent", Json.bool (consistentB stage places (firstPlace places)))]
 
 def jPlacesList (l : List Places) : Json := jArr (l.map jNats)
 
